@@ -24,7 +24,7 @@ import json,sys
 src,dst,pid,orig,build,lib,mut=sys.argv[1:]
 try: m=json.load(open(src))
 except Exception: m={}
-out={"property":pid,"summary":m.get("summary"),"needs":m.get("needs"),"agent_ran":m.get("ran"),
+out={"property":pid[:3],"summary":m.get("summary"),"needs":m.get("needs"),"agent_ran":m.get("ran"),
  "confirmed":{"demo_on_original_rc":int(orig),"build_rc":int(build),"lib_tests_rc":int(lib),"demo_with_change_rc":int(mut),
   "commands":["git apply -R patch.diff; cargo test --offline --test demo (pass)","git apply patch.diff; cargo build --offline; cargo test --offline --lib (51 pass); cargo test --offline --test demo (fail)"]}}
 json.dump(out,open(dst,"w"),indent=1)
